@@ -16,6 +16,7 @@ import Rooc.Proofs.ExpLemmasNF
 import Rooc.Proofs.ExpLemmasSound
 import Rooc.Proofs.ExpLemmasDiv
 import Rooc.Proofs.ExpLemmasTruth
+import Rooc.Proofs.ExpLemmasReflect
 namespace Rooc.Props.C10
 open Rooc Rooc.Exp Rooc.Sem
 
@@ -79,6 +80,20 @@ so `simplify_sound_partial` composes with later rewrites. -/
 theorem simplify_preserves_logicOperands01 (ρ : String → K) (e : Exp (Ext K)) (v : K)
     (h01 : LogicOperands01 ρ e) (hv : eval ρ e = some v) : LogicOperands01 ρ (simplify e) :=
   (simplify_sound_aux ρ e h01 v hv).2
+
+/-- FULL. The hypothesis is decidable: the executable predicate `Oracle.logicOperands01`, which the
+check uses (at `Rat`, with the import-free arithmetic of `Rooc/Num.lean`) to decide whether a value
+violation lies inside or outside the region covered by `simplify_sound_partial`, decides exactly
+`LogicOperands01` at `K = ℚ`. -/
+theorem logicOperands01_reflects (ρ : String → ℚ) (e : Exp (Ext ℚ)) :
+    Oracle.logicOperands01 ρ e = true ↔ LogicOperands01 ρ e :=
+  logicOperands01_reflects' ρ e
+
+/-- FULL. The oracle's evaluator (import-free `ExactField Rat`) and the evaluator of the theorems
+(Mathlib bridge instance) are the same function. -/
+theorem oracle_eval_eq (ρ : String → ℚ) (e : Exp (Ext ℚ)) :
+    @eval ℚ instExactFieldRat ρ e = @eval ℚ (fieldExact ℚ) ρ e :=
+  eval_inst ρ e
 
 /-- The genuine defect that forces the hypothesis: `x and 1` is rewritten to `x`, so at `x = 2`
 the value changes from 1 to 2. -/
